@@ -70,13 +70,18 @@ def check_mol(acc, m, tag, full_grid):
                 if got != paths.fold(hm, ln, nab) or any(not 0 <= b < ln for b in got):
                     bad('morgan_bit_set does not follow length/active-bits', params=[ln, nab])
                     return
-        acc.transitions += 2
-        fp = m.linear_fingerprint(1, 4, 64, 2, 4)
-        if len(fp) != 64 or {i for i, x in enumerate(fp) if x} != paths.fold(hl, 64, 2):
-            bad('linear_fingerprint array differs from bit set')
-        fp = m.morgan_fingerprint(1, 4, 64, 2)
-        if len(fp) != 64 or {i for i, x in enumerate(fp) if x} != paths.fold(hm, 64, 2):
-            bad('morgan_fingerprint array differs from bit set')
+        # the array forms take the same parameters (positional and by keyword) as the bit sets
+        for ln in (64, 256):
+            for nab in (1, 2, 3, 4):
+                acc.transitions += 4
+                for how, fp in (('positional', m.linear_fingerprint(1, 4, ln, nab, 4)), ('keyword', m.linear_fingerprint(min_radius=1, max_radius=4, length=ln, number_active_bits=nab, number_bit_pairs=4))):
+                    if len(fp) != ln or {i for i, x in enumerate(fp) if x} != paths.fold(hl, ln, nab):
+                        bad('linear_fingerprint array differs from bit set', params=[ln, nab, how])
+                        return
+                for how, fp in (('positional', m.morgan_fingerprint(1, 4, ln, nab)), ('keyword', m.morgan_fingerprint(min_radius=1, max_radius=4, length=ln, number_active_bits=nab))):
+                    if len(fp) != ln or {i for i, x in enumerate(fp) if x} != paths.fold(hm, ln, nab):
+                        bad('morgan_fingerprint array differs from bit set', params=[ln, nab, how])
+                        return
     except Exception as e:
         bad('fingerprint raised %s' % type(e).__name__)
 
